@@ -136,6 +136,33 @@ class FuncTable(dict):
         return dict.__contains__(self, key) or self._imported(key) is not None
 
 
+class MethodTable(dict):
+    """methods of a class by name. A private method that was turned into a module-level function of the same name in the
+    same module (`Statements._graph(self)` -> `_graph(statements)`) is still found by get() / []; iteration lists only the
+    real methods."""
+    cls = None
+
+    def _moved(self, key):
+        if self.cls is None or not isinstance(key, str) or not key.startswith('_') or key.startswith('__'):
+            return None
+        f = dict.get(self.cls.module.functions, key)
+        if f is not None and f.cls is None and f.parent is None:
+            return f
+        return None
+
+    def get(self, key, default=None):
+        if dict.__contains__(self, key):
+            return dict.__getitem__(self, key)
+        f = self._moved(key)
+        return f if f is not None else default
+
+    def __missing__(self, key):
+        f = self._moved(key)
+        if f is None:
+            raise KeyError(key)
+        return f
+
+
 class ClassTable(dict):
     """classes of a module by name; like FuncTable, a class moved to another module and imported back is still found"""
     repo = None
@@ -244,7 +271,8 @@ class Repo:
                     visit(n.body, f'{q}.<locals>.', None, f)
                 elif isinstance(n, ast.ClassDef):
                     cname = f'{prefix}{n.name}'
-                    c = Class(m, cname, n, {}, list(n.bases))
+                    c = Class(m, cname, n, MethodTable(), list(n.bases))
+                    c.methods.cls = c
                     m.classes[cname] = c
                     visit(n.body, f'{cname}.', c, None)
                 elif isinstance(n, (ast.If, ast.Try, ast.With)):
